@@ -221,6 +221,8 @@ def run(ctx: Ctx):
             ctx.report("after a create,fix session the tests fail with --inline-snapshot=disable", {"kind": "session", "source": p["source"], "after": o["after"], "output": o["tail2"]},
                        tag="F-39" if dup_key_getitem(p["source"]) else None)
     ctx.coverage["oracle"]["session_pairs"] = len(sp)
+    from .. import twins
+    twins.check(ctx, "C02", [p["source"] for p in sp[:2 if not ctx.thorough else 10]], flag_sets=(("create", "fix"),))
     # several test files in one create,fix session: every file has something to create, exactly one of them also something to fix
     # (whatever order the files are registered in, the file with the fix is not always the last one)
     for k in range(3):
@@ -237,6 +239,9 @@ def run(ctx: Ctx):
 
 
 def replay(ctx: Ctx, data):
+    if isinstance(data.get("case"), dict) and data["case"].get("kind") == "twins":
+        from .. import twins
+        return twins.replay(data["case"])
     if isinstance(data.get("case"), dict) and data["case"].get("kind") == "nest":
         from .. import nestassign as na
         return na.replay_case(data["case"])
